@@ -1,6 +1,8 @@
 package main
 
 import (
+	"strconv"
+	"regexp"
 	"fmt"
 	"go/token"
 	"go/types"
@@ -76,6 +78,8 @@ type VC struct {
 	autoKept []string
 	topVals  map[ssa.Value]Term
 	renderAllDecls bool
+	always   map[string][]*alwaysRec // watch -> accumulators (always("watch", "E") in the contract of the function under verification)
+	topFrame *frame
 	exitReach []Term
 	exitIdx   []int
 	exitPos   []string
@@ -329,4 +333,86 @@ func typesOf(vs []ssa.Value) []types.Type {
 		out[i] = v.Type()
 	}
 	return out
+}
+
+
+// alwaysRec: a ghost accumulator "E held right after every event of watch w so far".
+type alwaysRec struct {
+	w, text string
+	cl      *Clause
+}
+
+func (vc *VC) alwaysReg(w, ex string) *alwaysRec {
+	for _, r := range vc.always[w] {
+		if alwaysName(r.w, r.text) == alwaysName(w, ex) {
+			return r
+		}
+	}
+	return nil
+}
+
+var alwaysRe = regexp.MustCompile(`always\(\s*"([^"]+)"\s*,\s*"((?:[^"\\]|\\.)*)"\s*\)`)
+
+// registerAlways scans the contract of the function under verification for always("w", "E") accumulators.
+func (vc *VC) registerAlways(ct *Contract, fn *ssa.Function) {
+	if ct == nil {
+		return
+	}
+	var texts []string
+	for _, c := range ct.Requires {
+		texts = append(texts, c.Text)
+	}
+	for _, c := range ct.Ensures {
+		texts = append(texts, c.Text)
+	}
+	for _, cs := range ct.Loops {
+		for _, c := range cs {
+			texts = append(texts, c.Text)
+		}
+	}
+	for _, t := range texts {
+		t = expandMacros(t, pkgMacros[ct.relpkg])
+		for _, m := range alwaysRe.FindAllStringSubmatch(t, -1) {
+			w := m[1]
+			ex, err := strconv.Unquote("\"" + m[2] + "\"")
+			if err != nil {
+				unsup("always: bad expression literal %s", m[2])
+			}
+			if vc.alwaysReg(w, ex) != nil {
+				continue
+			}
+			cl := &Clause{Name: "always:" + ex, Text: ex}
+			if err := vc.P.prepare(cl, fn, contractPos(fn)); err != nil {
+				unsup("stale contract: %v", err)
+			}
+			if vc.always == nil {
+				vc.always = map[string][]*alwaysRec{}
+			}
+			vc.always[w] = append(vc.always[w], &alwaysRec{w: w, text: ex, cl: cl})
+		}
+	}
+}
+
+// updateAlways folds the event of watch w that just happened (under condition cond) into its accumulators.
+func (f *frame) updateAlways(w string, cond Term) {
+	vc := f.vc
+	for _, r := range vc.always[w] {
+		env := vc.topFrame.env(r.cl, nil)
+		env.now = f.st
+		val := env.eval(r.cl.expr)
+		name := alwaysName(r.w, r.text)
+		old := f.st.get(name, SBool)
+		f.st.set(name, vc.define("G$always", mkAnd(old, mkOr(mkNot(cond), val))))
+	}
+}
+
+// taintAlways: events of w happened (when some) that were not observed one by one.
+func (f *frame) taintAlways(w string, some Term) {
+	vc := f.vc
+	for _, r := range vc.always[w] {
+		name := alwaysName(r.w, r.text)
+		old := f.st.get(name, SBool)
+		fresh := vc.declareFresh("G$always!t", SBool)
+		f.st.set(name, vc.define("G$always", mkAnd(old, mkOr(mkNot(some), fresh))))
+	}
 }
